@@ -68,4 +68,7 @@ def unpack : List Fmt → Bytes → Option (List Int)
 /-- `Flag.X in flags` for a flag whose value is `2^k` -/
 def hasBit (n k : Nat) : Bool := n / 2 ^ k % 2 = 1
 
+/-- `str.lower()` on ASCII -/
+def lower (s : String) : String := String.ofList (s.toList.map Char.toLower)
+
 end Mimic.Py
